@@ -33,7 +33,7 @@ type TransportInput struct {
 	Property   string      `json:"property"`
 	Seed       int64       `json:"seed"`
 	Behaviours []Behaviour `json:"behaviours"`
-	Frames     bool        `json:"frames"`     // run the frame cases (real libp2p streams over mocknet)
+	Frames     bool        `json:"frames"` // run the frame cases (real libp2p streams over mocknet)
 	FramesOnly bool        `json:"frames_only"`
 	Names      int         `json:"names"` // random peer id pairs for the channel-name check
 }
@@ -517,7 +517,7 @@ func (r *trRun) frames() {
 	}
 	type fc struct {
 		name    string
-		size    int    // payload through Send (>=0) ...
+		size    int      // payload through Send (>=0) ...
 		rawData [][]byte // ... or raw bytes on a stream
 		deliver bool
 	}
